@@ -1,6 +1,7 @@
 """C16 -- renormalisation restores the reference elemental abundances."""
 from __future__ import annotations
 
+import ast
 import re
 
 from .. import calg, jmodel as J
@@ -74,12 +75,31 @@ def _r5(ctx, pkg):
     for f in pkg.files:
         if not f.endswith(".py") or f.startswith("naunet/examples/"):
             continue
+        owner = {}
+        for fn_ in ast.walk(pkg.modules[f]):
+            if isinstance(fn_, (ast.FunctionDef, ast.AsyncFunctionDef)):
+                for x in ast.walk(fn_):
+                    if isinstance(x, ast.Call):
+                        owner[id(x)] = fn_          # the innermost function wins (walk visits outer functions first)
+
+        def through_local(e_, fn_):
+            """a local bound exactly once in the function stands for the expression it was bound to"""
+            for _ in range(3):
+                if isinstance(e_, ast.Name) and fn_ is not None:
+                    asg = [a for a in ast.walk(fn_) if isinstance(a, ast.Assign) and any(isinstance(t, ast.Name) and t.id == e_.id for t in a.targets)]
+                    stores = [x for x in ast.walk(fn_) if isinstance(x, ast.Name) and x.id == e_.id and isinstance(x.ctx, ast.Store)]
+                    if len(asg) == 1 and len(stores) == 1:
+                        e_ = asg[0].value
+                        continue
+                break
+            return e_
         for c in ast.walk(pkg.modules[f]):
             if isinstance(c, ast.Call) and ast.unparse(c.func).split(".")[-1] == "NetworkInfo":
                 n += 1
                 args = {k.arg: k.value for k in c.keywords}
                 e = c.args[0] if len(c.args) > 0 else args.get("elements")
                 sp = c.args[1] if len(c.args) > 1 else args.get("species")
+                e, sp = through_local(e, owner.get(id(c))), through_local(sp, owner.get(id(c)))
                 good = isinstance(e, ast.Attribute) and isinstance(sp, ast.Attribute) and e.attr == "elements" and sp.attr == "species" and ast.unparse(e.value) == ast.unparse(sp.value)
                 ctx.check(good, "R5", f"{f.rsplit('/', 1)[1]}:NetworkInfo(elements, species)", (f, c.lineno), "elements and species of the same network are handed to the generator",
                           expected="NetworkInfo(network.elements, network.species, ...)", found=f"{ast.unparse(e) if e else None}, {ast.unparse(sp) if sp else None}")
@@ -145,9 +165,14 @@ def check(ctx):
     # ------------------------------------------------------------ R1 matrix term
     ret = [f for f in fl.facts if f.kind == "return"]
     mat_name = fac_name = None
-    if len(ret) == 1 and ret[0].value[0] == "meth" and ret[0].value[2] == "RenormContent" and len(ret[0].value[3]) == 2:
-        a, b = ret[0].value[3]
-        if a[0] == "acc" and b[0] == "acc":
+    if len(ret) == 1 and ret[0].value[0] == "meth" and ret[0].value[2] == "RenormContent":
+        # bound to the dataclass fields, by position or by keyword
+        fields = [x.target.id for x in pkg.cls("TemplateLoader.RenormContent").node.body if isinstance(x, ast.AnnAssign) and isinstance(x.target, ast.Name)] \
+            if "TemplateLoader.RenormContent" in pkg.classes else ["factor", "matrix"]
+        given = dict(zip(fields, ret[0].value[3]))
+        given.update({k: v for k, v in ret[0].value[4] if k in fields})
+        a, b = given.get("factor"), given.get("matrix")
+        if len(ret[0].value[3]) + len(ret[0].value[4]) == 2 and a is not None and b is not None and a[0] == "acc" and b[0] == "acc":
             fac_name, mat_name = a[1], b[1]
     if mat_name is None:
         ctx.unrec("R1", "RenormContent(...)", W, "return RenormContent(factor, matrix) not recognised")
@@ -606,6 +631,7 @@ MUTANTS = [
         {"file": FILE, "old": "from importlib.metadata import version\n", "new": "from importlib.metadata import version\nfrom itertools import product\nfrom collections import namedtuple\n"},
         {"file": FILE, "old": "class TemplateLoader:\n", "new": "_Elem = namedtuple(\"_Elem\", \"label atom\")\n\n\nclass TemplateLoader:\n"},
         {"file": FILE, "old": "        matrix = []\n        for iele, einame in enumerate(elemnames):\n            for jele, ejname in enumerate(elemnames):\n                terms = [\"0.0\"]\n                for ispec, spec in enumerate(species):\n                    ci = spec.element_count.get(einame, 0)\n                    cj = spec.element_count.get(ejname, 0)\n                    if not spec.is_electron and ci and cj:\n                        terms.append(\n                            f\"{(ci * cj * elements[jele].A)} * ab[IDX_{spec.alias}] / {spec.A} / Hnuclei\"\n                        )\n                matrix.append(\" + \".join(terms))\n", "new": "        refs = [_Elem(next(iter(e.element_count)), e) for e in elements]\n        matrix = []\n        for ri in refs:\n            for rj in refs:\n                terms = [\"0.0\"]\n                for spec in species:\n                    ci = spec.element_count.get(ri.label, 0)\n                    cj = spec.element_count.get(rj.label, 0)\n                    if not spec.is_electron and ci and cj:\n                        terms.append(f\"{(ci * cj * ri.atom.A)} * ab[IDX_{spec.alias}] / {spec.A} / Hnuclei\")\n                matrix.append(\" + \".join(terms))\n"}], "rules": ["R1"]},
+    {"name": "renorm-content-keywords-swapped", "file": FILE, "old": "        return self.RenormContent(renorm, matrix)", "new": "        return self.RenormContent(matrix=renorm, factor=matrix)", "rules": ["R1"]},
 ]
 BENIGN = [
     {"name": "coefficient-commuted", "file": FILE, "old": "{(ci * cj * elements[jele].A)}", "new": "{(elements[jele].A * cj * ci)}"},
@@ -629,4 +655,6 @@ BENIGN = [
         {"file": FILE, "old": "from importlib.metadata import version\n", "new": "from importlib.metadata import version\nfrom itertools import product\nfrom collections import namedtuple\n"},
         {"file": FILE, "old": "class TemplateLoader:\n", "new": "_Elem = namedtuple(\"_Elem\", \"label atom\")\n\n\nclass TemplateLoader:\n"},
         {"file": FILE, "old": "        matrix = []\n        for iele, einame in enumerate(elemnames):\n            for jele, ejname in enumerate(elemnames):\n                terms = [\"0.0\"]\n                for ispec, spec in enumerate(species):\n                    ci = spec.element_count.get(einame, 0)\n                    cj = spec.element_count.get(ejname, 0)\n                    if not spec.is_electron and ci and cj:\n                        terms.append(\n                            f\"{(ci * cj * elements[jele].A)} * ab[IDX_{spec.alias}] / {spec.A} / Hnuclei\"\n                        )\n                matrix.append(\" + \".join(terms))\n", "new": "        refs = [_Elem(next(iter(e.element_count)), e) for e in elements]\n        matrix = []\n        for ri in refs:\n            for rj in refs:\n                terms = [\"0.0\"]\n                for spec in species:\n                    ci = spec.element_count.get(ri.label, 0)\n                    cj = spec.element_count.get(rj.label, 0)\n                    if not spec.is_electron and ci and cj:\n                        terms.append(f\"{(ci * cj * rj.atom.A)} * ab[IDX_{spec.alias}] / {spec.A} / Hnuclei\")\n                matrix.append(\" + \".join(terms))\n"}]},
+    {"name": "renorm-content-by-keyword", "file": FILE, "old": "        return self.RenormContent(renorm, matrix)", "new": "        return self.RenormContent(matrix=matrix, factor=renorm)"},
+    {"name": "networkinfo-through-locals", "file": FILE, "old": "        info = NetworkInfo(\n            network.elements,\n            network.species,\n", "new": "        atoms = network.elements\n        members = network.species\n        info = NetworkInfo(\n            atoms,\n            members,\n"},
 ]
